@@ -10,6 +10,7 @@ C01 harness on ground-truth snapshots, and by `Switchover`'s ordering theorem be
 import MysyncModel.App.Optimization
 import MysyncModel.App.Switchover
 import MysyncProofs.Lemmas.OptimizationLemmas
+import MysyncProofs.Lemmas.SwitchoverLemmas
 
 namespace C19
 open NS Optimization
@@ -96,5 +97,39 @@ private def r2 : RegHost := { name := "b", enabled := some false, isMaster := fa
 private def i0 : SyncIn := { hosts := [r1, r2], masterRs := ⟨1, 1⟩, current := fun h => if h == "b" then ⟨2, 1000⟩ else ⟨1, 1⟩, fails := fun _ => false }
 example : (match sync ⟨60, 120⟩ i0 with | .trace t => t | .panic t => t) =
     [⟨.restore "b", true⟩, ⟨.deregister "b", true⟩, ⟨.relax "a", true⟩] := by decide +kernel
+
+/-- the switchover clause on the procedure model (true only since fix 97bff8a): whenever the speed-up phase ran,
+every freeze step — and therefore every promotion — comes after a successful shut-off of the optimisation that
+itself comes after the speed-up phase; for all oracle outcomes -/
+theorem switchover_shuts_optimisation_off_before_freeze (cfg : Switchover.Cfg) (i : Switchover.In)
+    (pre post : List Switchover.Step) (h : String) (ok : Bool)
+    (hs : Switchover.performSwitchover cfg i = pre ++ Switchover.Step.freezeRO h ok :: post) :
+    Switchover.Step.stopOptimization true ∈ pre ∧
+    (Switchover.Step.turboPhase true ∈ pre →
+      ∃ a b, pre = a ++ Switchover.Step.turboPhase true :: b ∧ Switchover.Step.stopOptimization true ∈ b) := by
+  -- what precedes a freeze step: `[stopOptimization true]` or `[stopOptimization true, turboPhase true, stopOptimization true]`
+  -- (`SwitchoverLemmas.optPrefix`), then freeze steps only
+  obtain ⟨f, hpre, hf⟩ := SwitchoverLemmas.before_freeze cfg i pre post h ok hs
+  subst hpre
+  refine ⟨by simp [SwitchoverLemmas.optPrefix], fun ht => ?_⟩
+  cases hturbo : i.turbo
+  · exfalso
+    simp only [SwitchoverLemmas.optPrefix, hturbo] at ht
+    simp at ht
+    obtain ⟨x, o, hx⟩ := hf _ ht
+    cases hx
+  · exact ⟨[.stopOptimization true], .stopOptimization true :: f, by simp [SwitchoverLemmas.optPrefix, hturbo], by simp⟩
+
+-- non-vacuity: a planned switchover with the speed-up phase in a healthy 3-node cluster
+private def mst : NodeState := { pingOk := true, isMaster := true }
+private def rep : NodeState := { pingOk := true, slave := some { state := .running, masterHost := "a" } }
+private def s0 : Switchover.In :=
+  { cs := [("a", mst), ("b", rep), ("c", rep)], active := ["a", "b", "c"], sw := { to := "b" }, oldMaster := "a", turbo := true,
+    ro := fun _ => true, io := fun _ => true, positions := none, cs2 := [], repoint := fun _ => true }
+example : (Switchover.performSwitchover ⟨true, 1, false, 0, 60⟩ s0).take 6 =
+    [.stopOptimization true, .turboPhase true, .stopOptimization true, .freezeRO "a" true, .freezeRO "b" true, .freezeRO "c" true] := by
+  decide +kernel
+example : Switchover.performSwitchover ⟨true, 1, false, 0, 60⟩ { s0 with optStop2Ok := false } =
+    [.stopOptimization true, .turboPhase true, .stopOptimization false] := by decide +kernel
 
 end C19
